@@ -122,6 +122,7 @@ MmapLog<'a, ItemType, MAX_STREAMS> {
         let ref_self: &Self = self;
         let mutable_self = unsafe { &mut *(*(ref_self as *const Self as *const std::cell::UnsafeCell<Self>)).get() };
         let stream_id = self.streams_manager.create_stream_id();
+        #[cfg(feature = "verif")] crate::verif::point(crate::verif::MMAP_CREATE_AFTER_ID);
         mutable_self.subscribers[stream_id as usize] = MMapMetaSubscriber::Dynamic(self.log_queue.subscribe_to_new_events_only());
         (MutinyStream::new(stream_id, self), stream_id)
     }
@@ -130,8 +131,10 @@ MmapLog<'a, ItemType, MAX_STREAMS> {
         let ref_self: &Self = self;
         let mutable_self = unsafe { &mut *(*(ref_self as *const Self as *const std::cell::UnsafeCell<Self>)).get() };
         let (stream_of_oldies, stream_of_newies) = self.log_queue.subscribe_to_separated_old_and_new_events();
+        #[cfg(feature = "verif")] crate::verif::point(crate::verif::MMAP_CREATE_AFTER_SUBSCRIBE);
         let stream_of_oldies_id = self.streams_manager.create_stream_id();
         let stream_of_newies_id = self.streams_manager.create_stream_id();
+        #[cfg(feature = "verif")] crate::verif::point(crate::verif::MMAP_CREATE_AFTER_ID);
         mutable_self.subscribers[stream_of_oldies_id as usize] = MMapMetaSubscriber::Fixed(stream_of_oldies);
         mutable_self.subscribers[stream_of_newies_id as usize] = MMapMetaSubscriber::Dynamic(stream_of_newies);
         ( (MutinyStream::new(stream_of_oldies_id, self), stream_of_oldies_id),
@@ -142,6 +145,7 @@ MmapLog<'a, ItemType, MAX_STREAMS> {
         let ref_self: &Self = self;
         let mutable_self = unsafe { &mut *(*(ref_self as *const Self as *const std::cell::UnsafeCell<Self>)).get() };
         let stream_id = self.streams_manager.create_stream_id();
+        #[cfg(feature = "verif")] crate::verif::point(crate::verif::MMAP_CREATE_AFTER_ID);
         mutable_self.subscribers[stream_id as usize] = MMapMetaSubscriber::Dynamic(self.log_queue.subscribe_to_joined_old_and_new_events());
         (MutinyStream::new(stream_id, self), stream_id)
     }
@@ -157,9 +161,11 @@ MmapLog<'a, ItemType, MAX_STREAMS> {
     fn send(&self, item: ItemType) -> keen_retry::RetryConsumerResult<(), ItemType, ()> {
         match self.log_queue.publish_movable(item) {
             (Some(_tail), _none_item) => {
+                #[cfg(feature = "verif")] crate::verif::point(crate::verif::MULTI_FANOUT_BEFORE_COUNT);
                 let running_streams_count = self.streams_manager.running_streams_count();
                 let used_streams = self.streams_manager.used_streams();
                 for i in 0..running_streams_count {
+                    #[cfg(feature = "verif")] crate::verif::point(crate::verif::MULTI_FANOUT_BEFORE_ENTRY);
                     let stream_id = *unsafe { used_streams.get_unchecked(i as usize) };
                     if stream_id != u32::MAX {
                         self.streams_manager.wake_stream(stream_id);
@@ -177,10 +183,12 @@ MmapLog<'a, ItemType, MAX_STREAMS> {
     fn send_with<F: FnOnce(&mut ItemType)>(&self, setter: F) -> keen_retry::RetryConsumerResult<(), F, ()> {
         match self.log_queue.publish(setter) {
             (Some(_tail), _none_setter) => {
+                #[cfg(feature = "verif")] crate::verif::point(crate::verif::MULTI_FANOUT_BEFORE_COUNT);
                 let running_streams_count = self.streams_manager.running_streams_count();
                 let used_streams = self.streams_manager.used_streams();
                 // TODO 2024-03-05: can this Stream awakening be optimized, like on the zero-copy channels? Tests should prove it.
                 for i in 0..running_streams_count {
+                    #[cfg(feature = "verif")] crate::verif::point(crate::verif::MULTI_FANOUT_BEFORE_ENTRY);
                     let stream_id = *unsafe { used_streams.get_unchecked(i as usize) };
                     if stream_id != u32::MAX {
                         self.streams_manager.wake_stream(stream_id);
